@@ -26,12 +26,13 @@ FUNCS = [
     dict(name='u', arity=1, ret='int', argk=['uptr']),
     dict(name='s', arity=1, ret='str', argk=['str']),
     dict(name='k', arity=1, ret='cref', argk=['cint']),
+    dict(name='z', arity=0, ret='void', argk=[]),
 ]
 
 # matcher kinds (must match sim::MK in shape.hpp)
 MK = ['ANY', 'VAL', 'EQ', 'NE', 'LT', 'LE', 'GT', 'GE', 'NOTEQ', 'ANYOF', 'TYPEDANY']
 # with predicate kinds (sim::WK)
-WK = ['LE', 'GE', 'NE', 'EQ', 'LT12', 'NESNAP']
+WK = ['LE', 'GE', 'NE', 'EQ', 'LT12', 'NESNAP', 'LTMAC']
 # bounds forms (sim::BF)
 BF = ['DEFAULT', 'T2', 'T13', 'T02', 'AL1', 'AL2', 'AM2', 'RT1', 'RT2', 'ALLOW', 'FORBID', 'T0', 'T11', 'AL0', 'T3', 'T24']
 BOUNDS = {
@@ -53,7 +54,7 @@ BOUNDS = {
     'T0': (0, 0, '.TIMES(0)'),
 }
 # return kinds (sim::RK)
-RK = ['NONE', 'VAL', 'LRVAL', 'THROW_STD', 'THROW_INT', 'REF_PARAM', 'REF_CELL', 'STR', 'LRSTR', 'CREF_PARAM', 'CREF_CELL', 'CREF_CAPT']
+RK = ['NONE', 'VAL', 'LRVAL', 'THROW_STD', 'THROW_INT', 'REF_PARAM', 'REF_CELL', 'STR', 'LRSTR', 'CREF_PARAM', 'CREF_CELL', 'CREF_CAPT', 'STR_PARAM', 'LRSTR_VAR']
 
 
 def matcher_text(kind, argk, vi):
@@ -63,7 +64,7 @@ def matcher_text(kind, argk, vi):
     if kind == 'ANY':
         return 'trompeloeil::_'
     if kind == 'TYPEDANY':
-        return {'int': 'ANY(int)', 'intref': 'ANY(int&)', 'cint': 'ANY(const int&)', 'str': 'ANY(const std::string&)',
+        return {'int': 'ANY(int)', 'intref': 'ANY(int&)', 'cint': 'ANY(const int&)', 'str': 'ANY(std::string&)',
                 'uptr': 'ANY(std::unique_ptr<sim::Tracked>)'}[argk]
     if kind == 'VAL':
         return v
@@ -78,15 +79,18 @@ def matcher_text(kind, argk, vi):
     raise ValueError(kind)
 
 
-def with_text(wk, lr, k, vi):
-    # all predicates go through sim::val so the text is the same for every argument kind
+def with_text(wk, lr, k, vi, arity=1):
+    # all predicates go through sim::val so the text is the same for every argument kind; a function without
+    # parameters has nothing but the locals to look at (x.v[0] stands in for the argument)
+    a = 'sim::val(_1)' if arity else 'x.v[0]'
     pred = {
-        'LE': 'sim::val(_1) <= x.v[%d]' % vi,
-        'GE': 'sim::val(_1) >= x.v[%d]' % vi,
-        'NE': 'sim::val(_1) != x.v[%d]' % vi,
-        'EQ': 'sim::val(_1) == x.v[%d]' % vi,
+        'LE': '%s <= x.v[%d]' % (a, vi),
+        'GE': '%s >= x.v[%d]' % (a, vi),
+        'NE': '%s != x.v[%d]' % (a, vi),
+        'EQ': '%s == x.v[%d]' % (a, vi),
         'LT12': 'sim::val(_1) < sim::val(_2)',
-        'NESNAP': 'sim::val(_1) != x.snap',
+        'NESNAP': '%s != x.snap' % a,
+        'LTMAC': '%s < SIM_LIMIT' % a,
     }[wk]
     inner = 'sim::w(x.id, %d, %s)' % (k, pred)
     return ('.LR_WITH(%s)' if lr else '.WITH(%s)') % inner, inner
@@ -116,6 +120,8 @@ def gen_shape(rng, sid, fn, force=None):
             kind = rng.choice(['ANY'] * 3 + ['VAL'] * 3 + ['EQ', 'NE', 'LT', 'LE', 'GT', 'GE', 'NOTEQ', 'ANYOF', 'TYPEDANY'])
         if 'mk' in force:
             kind = force['mk'][i]
+        if ak == 'str' and kind == 'VAL':
+            kind = 'EQ'   # a std::string& parameter cannot bind to a temporary value; eq() compares without binding
         ms.append((kind, i))  # operand index = parameter index
     d['matchers'] = ms
     # with clauses
@@ -126,7 +132,11 @@ def gen_shape(rng, sid, fn, force=None):
         if f['arity'] == 2:
             choices.append('LT12')
         wk = rng.choice(choices)
+        if 'wk' in force:
+            wk = force['wk'][k]
         lr = (wk == 'NESNAP' and rng.random() < 0.5) or rng.random() < 0.25
+        if 'wlr' in force:
+            lr = force['wlr']
         withs.append((wk, lr, 2))  # operand v[2] for WITH
     d['withs'] = withs
     # sequences
@@ -153,7 +163,7 @@ def gen_shape(rng, sid, fn, force=None):
     elif f['ret'] == 'cref':
         rk = rng.choice(['CREF_PARAM', 'CREF_PARAM', 'CREF_CELL', 'CREF_CELL', 'CREF_CAPT', 'CREF_CAPT', 'THROW_STD'])
     else:
-        rk = rng.choice(['STR', 'STR', 'LRSTR', 'THROW_STD'])
+        rk = rng.choice(['STR', 'STR', 'LRSTR', 'THROW_STD', 'STR_PARAM', 'STR_PARAM', 'LRSTR_VAR', 'LRSTR_VAR'])
     rk = force.get('rk', rk)
     d['rk'] = rk
     d['vform'] = force.get('vform', rng.random() < 0.2)
@@ -199,6 +209,7 @@ def gen_shape(rng, sid, fn, force=None):
 def render(d, scoped=False):
     f = FUNCS[d['fn']]
     args = ', '.join(matcher_text(k, f['argk'][i], vi) for i, (k, vi) in enumerate(d['matchers']))
+    arity = f['arity']
     func_txt = '%s(%s)' % (f['name'], args)
     macro = {'ALLOW': 'NAMED_ALLOW_CALL', 'FORBID': 'NAMED_FORBID_CALL'}.get(d['bf'], 'NAMED_REQUIRE_CALL')
     if scoped:
@@ -206,11 +217,11 @@ def render(d, scoped=False):
     vform = d.get('vform', False)   # the C++11-style macros that take the modifiers as macro arguments
     s = '' if vform else '%s(m, %s)' % (macro, func_txt)
     with_inners = []
-    addr = 'sim::ad(_1)' + (', sim::ad(_2)' if f['arity'] == 2 else '')
+    addr = ('sim::ad(_1)' + (', sim::ad(_2)' if arity == 2 else '')) if arity else 'nullptr'
     for c, k in d['order']:
         if c == 'W':
             wk, lr, vi = d['withs'][k]
-            t, inner = with_text(wk, lr, k, vi)
+            t, inner = with_text(wk, lr, k, vi, arity)
             s += t
             with_inners.append(inner)
         elif c == 'S':
@@ -230,6 +241,8 @@ def render(d, scoped=False):
                 'CREF_CAPT': '.RETURN(sim::retcref(x.id, x.snap, x.v[0], %s))' % addr,
                 'STR': '.RETURN(sim::rets(x.id, x.snap, %s))' % addr,
                 'LRSTR': '.LR_RETURN(sim::rets(x.id, x.snap, %s))' % addr,
+                'STR_PARAM': '.RETURN(sim::retsr(x.id, x.snap, _1, %s))' % addr,
+                'LRSTR_VAR': '.LR_RETURN(sim::retsr(x.id, x.snap, x.str, %s))' % addr,
             }[rk]
         elif c == 'T':
             s += BOUNDS[d['bf']][2]
@@ -256,7 +269,7 @@ def main():
     for fn in range(len(FUNCS)):
         f = FUNCS[fn]
         any_m = ['ANY'] * f['arity']
-        val_m = ['VAL'] * f['arity'] if f['argk'][0] != 'uptr' else any_m
+        val_m = ['VAL'] * f['arity'] if f['argk'][:1] != ['uptr'] else any_m
         typed_m = ['TYPEDANY'] * f['arity']   # ANY(type) is a macro: the expectation text must show it as written
         base_rk = {'int': 'VAL', 'void': 'NONE', 'ref': 'REF_CELL', 'str': 'STR', 'cref': 'CREF_CAPT'}[f['ret']]
         forced = [
@@ -290,9 +303,23 @@ def main():
                        dict(bf='FORBID', mk=val_m, nwith=0, vform=True),
                        dict(bf='DEFAULT', mk=any_m, nwith=0, nseq=0, nse=0, rk='NONE', vform=True),
                        dict(bf='DEFAULT', mk=val_m, nwith=0, nseq=0, nse=0, rk='NONE', vform=True)]
+        # a WITH clause that mentions a macro (reported as written), alone and after an ordinary clause
+        forced += [dict(bf='ALLOW', mk=any_m, nwith=1, wk=['LTMAC'], wlr=False, nseq=0, nse=0, rk=base_rk, vform=False),
+                   dict(bf='DEFAULT', mk=any_m, nwith=2, wk=['GE', 'LTMAC'], wlr=True, nseq=0, nse=1, rk=base_rk, vform=False)]
+        if f['arity'] == 0:
+            # LR_WITH on a function without parameters: only the local can tell one call from the next
+            forced += [dict(bf='ALLOW', mk=any_m, nwith=1, wk=['NESNAP'], wlr=True, nseq=0, nse=0, rk='NONE', vform=False),
+                       dict(bf='ALLOW', mk=any_m, nwith=1, wk=['NESNAP'], wlr=False, nseq=0, nse=1, rk='NONE', vform=False),
+                       dict(bf='T13', mk=any_m, nwith=2, wk=['NESNAP', 'GE'], wlr=True, nseq=0, nse=0, rk='THROW_STD', vform=False),
+                       dict(bf='AL1', mk=any_m, nwith=1, wk=['NESNAP'], wlr=True, nseq=1, nse=0, rk='NONE', vform=False)]
+        if f['ret'] == 'str':
+            forced += [dict(bf='ALLOW', mk=any_m, nwith=0, nseq=0, nse=0, rk='STR_PARAM', vform=False),
+                       dict(bf='ALLOW', mk=any_m, nwith=0, nseq=0, nse=0, rk='LRSTR_VAR', vform=False),
+                       dict(bf='T13', mk=val_m, nwith=0, nseq=0, nse=1, rk='STR_PARAM', vform=False),
+                       dict(bf='AL1', mk=any_m, nwith=1, nseq=0, nse=1, rk='LRSTR_VAR', vform=False)]
         for fo in forced:
             shapes.append(gen_shape(rng, sid, fn, fo)); sid += 1
-    counts = [60, 26, 28, 12, 12, 12, 16, 14]
+    counts = [60, 26, 28, 12, 12, 12, 16, 14, 14]
     for fn, n in enumerate(counts):
         for _ in range(n):
             shapes.append(gen_shape(rng, sid, fn)); sid += 1
@@ -341,6 +368,8 @@ def main():
         ms = ', '.join('{MK_%s, %d}' % (k, vi) for k, vi in d['matchers'])
         if len(d['matchers']) == 1:
             ms += ', {MK_ANY, 0}'
+        if len(d['matchers']) == 0:
+            ms = '{MK_ANY, 0}, {MK_ANY, 0}'
         ws = ', '.join('{WK_%s, %s, %d, %s}' % (wk, 'true' if lr else 'false', vi, cstr(d['with_inners'][k]))
                        for k, (wk, lr, vi) in enumerate(d['withs']))
         while ws.count('{') < 2:
